@@ -69,6 +69,10 @@ class Solution:
         self._projects = {}
 
     def __setitem__(self, key, value):
+        # The project's name determines its UUID and the path of its project
+        # file, so two projects with the same name would overwrite each other.
+        if any(i.name == value.name for i in self):
+            raise ValueError('project {!r} already exists'.format(value.name))
         value.set_uuid(self._uuids)
         self._projects[key] = value
 
